@@ -49,9 +49,18 @@ func NewJSONParser(cdc codec.Codec) (*JSONParser, error) {
 
 // Parse returns the orbiter payload from a JSON formatted
 // string or an error.
-func (p *JSONParser) Parse(jsonString string) (*core.Payload, error) {
+func (p *JSONParser) Parse(jsonString string) (payload *core.Payload, err error) {
+	// NOTE: the proto JSON decoder panics on some malformed documents (e.g. a null element in a
+	// repeated message field nested in an Any). The memo is untrusted input handled inside the
+	// IBC receive transaction, so a decoding panic is reported as a parsing error.
+	defer func() {
+		if r := recover(); r != nil {
+			payload, err = nil, core.ErrParsingPayload.Wrap("failed to decode json string into Payload")
+		}
+	}()
+
 	var jsonData map[string]any
-	err := json.Unmarshal([]byte(jsonString), &jsonData)
+	err = json.Unmarshal([]byte(jsonString), &jsonData)
 	if err != nil {
 		return nil, core.ErrParsingPayload.Wrapf("not a valid json string: %s", err.Error())
 	}
